@@ -8,7 +8,9 @@ pub fn c14_burst() {
     let secondaries = vsym::param("secondaries", 1);
     let mut cl = mk_cluster(secondaries);
     let (mut admin, mut arx) = admin_client(&cl.nodes[0].dbs);
-    process_request("create-db d tok arbiter", &cl.nodes[0].dbs, &mut admin);
+    // conflict strategy of the database: 0 arbiter (default), 1 newer (stale versioned writes are resolved, not refused), 2 none
+    let strat = vsym::param("dbstrategy", 0);
+    process_request(if strat == 1 { "create-db d tok newer" } else if strat == 2 { "create-db d tok none" } else { "create-db d tok arbiter" }, &cl.nodes[0].dbs, &mut admin);
     vsym::assume(cl.settle(80, false).is_some());
     let (mut c0, mut r0) = db_client(&cl.nodes[0].dbs, "d");
     process_request("set k 4", &cl.nodes[0].dbs, &mut c0);
